@@ -168,7 +168,9 @@ def translate(ctx):
             "whose annotation mentions a value class. `harnessRegistry`: the status table of the harness.\n"
             "`harnessPlanters`: the positions the `tv` stream plants a type variable in. -/\nnamespace Pya\n\n"
             + lean_table("valueChildren", live) + "\n" + lean_table("harnessRegistry", reg) + "\n"
-            + lean_table("harnessPlanters", planters) + "\nend Pya\n")
+            + lean_table("harnessPlanters", planters) + "\n"
+            + "/-- calls of the raw `AnnotatedValue(` constructor / of the normalising `annotate_value(` in pyanalyze/value.py:\n"
+              "(enclosing function, callee, number of calls) -/\n" + lean_table("annotatedSites", annotated_sites()) + "\nend Pya\n")
     changed = lean.write_if_changed(os.path.join(lean.LEAN, "PyaModel", "Generated", "ValueChildren.lean"), text)
     ctx.extra["value_children_regenerated"] = {"changed_on_disk": changed, "rows": len(live)}
     return live
@@ -449,3 +451,145 @@ def tv_stream(ctx, only=None):
                 except Exception as e:
                     cand("exception in the type-variable laws: %r" % (e,), "total", None)
     ctx.tag("tv_values", n)
+
+
+# ------------------------------------------------------------------ Annotated with real metadata: construction routes
+def annotated_sites():
+    """(enclosing function, callee, number of calls) for every call of the raw `AnnotatedValue(` constructor and of the
+    normalising helper `annotate_value(` in pyanalyze/value.py (the tree under test)."""
+    import ast
+    import os
+    import pyanalyze.value as PV
+    src = open(os.path.splitext(PV.__file__)[0] + ".py").read()
+    tree = ast.parse(src)
+    rows = {}
+
+    def visit(node, qual):
+        for ch in ast.iter_child_nodes(node):
+            q = qual
+            if isinstance(ch, (ast.FunctionDef, ast.AsyncFunctionDef, ast.ClassDef)):
+                q = (qual + "." if qual else "") + ch.name
+            if isinstance(ch, ast.Call) and isinstance(ch.func, ast.Name) and ch.func.id in ("AnnotatedValue", "annotate_value"):
+                rows[(qual or "<module>", ch.func.id)] = rows.get((qual or "<module>", ch.func.id), 0) + 1
+            visit(ch, q)
+
+    visit(tree, "")
+    return sorted((f, c, str(n)) for (f, c), n in rows.items())
+
+
+def _struct_nodes(v):
+    out = []
+
+    def walk(o, stack):
+        if is_record(o):
+            if id(o) in stack:
+                return
+            out.append(o)
+            for _, child in _planted_children(o):
+                walk(child, stack | {id(o)})
+        elif isinstance(o, dict):
+            for x in o.values():
+                walk(x, stack)
+        elif isinstance(o, (list, tuple, set, frozenset)):
+            for x in o:
+                walk(x, stack)
+
+    walk(v, frozenset())
+    return out
+
+
+def annotated_illformed(v):
+    """None, or why: an AnnotatedValue directly inside an AnnotatedValue / a repeated metadata item (structural walk)."""
+    from pyanalyze.value import AnnotatedValue
+    for n in _struct_nodes(v):
+        if isinstance(n, AnnotatedValue):
+            if isinstance(n.value, AnnotatedValue):
+                return "Annotated directly inside Annotated: %s" % (n,)
+            md = list(n.metadata)
+            for i in range(len(md)):
+                for j in range(i + 1, len(md)):
+                    try:
+                        if md[i] == md[j]:
+                            return "repeated metadata item in %s" % (n,)
+                    except Exception:
+                        pass
+    return None
+
+
+def ann_stream(ctx):
+    """AnnotatedValue with distinct metadata items around type variables, unions and unions with annotated alternatives:
+    the constructor route MultiValuedValue(vals) against unite_values(*vals) (same members), well-formedness of every
+    result (no Annotated in Annotated, no repeated metadata), substitution commuting with uniting (as member sets)."""
+    import itertools
+    from pyanalyze import value as PV
+    from pyanalyze.value import AnnotatedValue, MultiValuedValue, TypedValue, TypeVarValue, annotate_value, flatten_values, unite_values
+    T = _T
+    m1, m2, m3 = PV.AlwaysPresentExtension(), PV.DeprecatedExtension("old"), PV.KnownValue("meta")
+    I, S, B = TypedValue(int), TypedValue(str), TypedValue(bytes)
+    tv = TypeVarValue(T)
+
+    def ann(x, *ms):
+        return annotate_value(x, ms)
+
+    pool = [I, S, tv, ann(I, m1), ann(S, m2), ann(tv, m2), ann(tv, m1, m2), ann(I, m1, m3),
+            MultiValuedValue([I, S]), MultiValuedValue([ann(I, m1), S]), MultiValuedValue([ann(tv, m2), S]),
+            MultiValuedValue([tv, ann(B, m1)]), ann(MultiValuedValue([I, S]), m2), ann(MultiValuedValue([tv, B]), m1),
+            ann(MultiValuedValue([ann(I, m1), S]), m2), ann(MultiValuedValue([ann(tv, m2), B]), m2),
+            PV.GenericValue(list, [ann(tv, m2)]), PV.GenericValue(list, [MultiValuedValue([ann(tv, m2), S])])]
+    maps = [I, ann(I, m1), MultiValuedValue([I, ann(S, m1)]), MultiValuedValue([ann(I, m1), S]), MultiValuedValue([ann(I, m2), S]),
+            ann(MultiValuedValue([I, S]), m1), ann(MultiValuedValue([I, S]), m2), MultiValuedValue([ann(I, m1, m2), ann(S, m2)])]
+
+    def members(v):
+        return list(flatten_values(v))
+
+    def same_members(a, b):
+        xs, ys = members(a), members(b)
+        return all(any(x == y for y in ys) for x in xs) and all(any(x == y for x in xs) for y in ys)
+
+    def check(case, what, v, cls=None):
+        bad = annotated_illformed(v)
+        if bad:
+            ctx.candidate(dict(case, law="annotated-normal"), "%s: %s" % (what, bad), cls=cls, conforms=True, stream="law-annotated-normal")
+
+    n = 0
+    lists = [list(p) for p in itertools.permutations(pool, 2)] + [[a, b, c] for a in pool[3:8] for b in pool[8:13] for c in pool[13:16]]
+    if not ctx.big():
+        lists = lists[::2]
+    for vals in lists:
+        n += 1
+        ctx.count(1, ann=1)
+        case = {"ann": [str(v) for v in vals]}
+        ctx.nontriv("ann|" + "|".join(case["ann"]))
+        try:
+            ctor, uni = MultiValuedValue(vals), unite_values(*vals)
+            check(case, "MultiValuedValue(vals)", ctor)
+            check(case, "unite_values(*vals)", uni)
+            if not same_members(ctor, uni):
+                ctx.candidate(dict(case, law="route"), "MultiValuedValue(vals) and unite_values(*vals) have different members: %s vs %s" % (ctor, uni),
+                              cls=None, conforms=True, stream="law-route")
+            if len(vals) == 2 and (typevars_in(vals[0]) or typevars_in(vals[1])):
+                for rv in maps:
+                    m = {T: rv}
+                    c2 = dict(case, tvmap=str(rv))
+                    lhs = unite_values(*vals).substitute_typevars(m)
+                    svals = [v.substitute_typevars(m) for v in vals]
+                    rhs = unite_values(*svals)
+                    # AnnotatedValue.substitute_typevars rebuilds itself with the raw constructor: when the variable is
+                    # replaced by an annotated value the result is Annotated-in-Annotated / repeats metadata. A failure is
+                    # put in that class only if the substitution of an annotated member ALONE is already ill-formed.
+                    parts = [x for v in list(vals) + [uni] for x in _struct_nodes(v) if isinstance(x, AnnotatedValue)]
+                    scls = "annotatedSubstNotNormalised" if any(annotated_illformed(x.substitute_typevars(m)) for x in parts) else None
+                    check(c2, "subst(unite)", lhs, scls)
+                    check(c2, "unite(subst)", rhs, scls)
+                    if not same_members(lhs, rhs):
+                        ctx.candidate(dict(c2, law="subst-unite-members"), "subst(unite(a, b)) and unite(subst a, subst b) have different members: %s vs %s" % (lhs, rhs),
+                                      cls=scls, conforms=True, stream="law-subst-unite-members")
+                    # the constructor route after substitution
+                    c3 = MultiValuedValue(svals)
+                    check(c2, "MultiValuedValue(subst vals)", c3, scls)
+                    if not same_members(c3, rhs):
+                        ctx.candidate(dict(c2, law="route"), "MultiValuedValue(subst vals) and unite_values(subst vals) have different members",
+                                      cls=scls, conforms=True, stream="law-route")
+        except Exception as e:
+            ctx.candidate(dict(case, law="total"), "exception in the Annotated laws: %r" % (e,), cls=None, conforms=True, stream="law-total")
+    ctx.tag("ann_lists", n)
